@@ -293,6 +293,34 @@ def _pwl_inputs(case, rs, kp_ref, miv):
   return probes
 
 
+def _cond_allowance(fn, x, t_kip, t_kop, kw, b, u, k, in_min, in_max, xf, tf):
+  """Float32 conditioning allowance per (example, unit).
+
+  The function places its keypoints by a float32 running sum of the derived
+  gaps, so a keypoint position is only known up to err = (k+2) * ulp32(scale of
+  the input range).  For a segment of length len next to x the interpolation
+  weight is therefore uncertain by min(1, 2*err/len), i.e. the output by that
+  times the segment's output increment.  Segments farther than err from x have
+  exact weights 0 or 1 and contribute nothing.
+  """
+  _, dx, kern = fn(tf.constant(x), t_kip, t_kop, return_derived_parameters=True,
+                   **kw)
+  dx = np.broadcast_to(dx.numpy(), (b, u, k - 1)).astype(np.float64)
+  kern = kern.numpy()
+  dy = np.abs(np.broadcast_to(kern[..., 1:], (b, u, kern.shape[-1] - 1))
+              ).astype(np.float64)
+  n = min(dx.shape[-1], dy.shape[-1])
+  dx, dy = dx[..., :n], dy[..., :n]
+  kp = in_min + np.concatenate([np.zeros((b, u, 1)),
+                                np.cumsum(dx, -1)[..., :-1]], -1)
+  scale = max(abs(in_min), abs(in_max), float(np.max(np.abs(xf))), 1e-30)
+  err = (k + 2) * float(np.spacing(np.float32(scale)))
+  xx = xf[..., None].astype(np.float64)
+  near = (xx >= kp - err) & (xx <= kp + dx + err)
+  w = np.minimum(1.0, 2.0 * err / np.maximum(dx, 1e-45))
+  return np.sum(np.where(near, dy * w, 0.0), axis=-1)
+
+
 def _run_pwl(case, out, tf, tfl):
   b, u, k = case["batch"], case["units"], case["k"]
   in_min, in_max = case["in_min"], case["in_max"]
@@ -368,7 +396,7 @@ def _run_pwl(case, out, tf, tfl):
   osc = scale_of(out_min, out_max)
   tol = TOL_F * osc
   sig = dict(fn="pwl")
-  ys, xs, miss = {}, {}, {}
+  ys, xs, miss, cond = {}, {}, {}, {}
   derived_cache = {}
   for name, x in probes:
     y = fn(tf.constant(x), t_kip, t_kop, **kw).numpy()
@@ -391,8 +419,10 @@ def _run_pwl(case, out, tf, tfl):
       c = np.cumsum(dx, axis=-1, dtype=np.float32)
       kp32 = (np.concatenate([np.zeros((b, u, 1), np.float32), c[..., :-1]],
                              -1) + np.float32(in_min)).astype(np.float32)
-      at = (np.abs(xf[..., None].astype(np.float64) - kp32) <=
-            2 * np.spacing(np.abs(kp32)).astype(np.float64)) & (dx == 0.0)
+      # (a subnormal difference x - keypoint is flushed to zero by TF as well)
+      at = (np.abs(xf[..., None].astype(np.float64) - kp32) <= np.maximum(
+          2 * np.spacing(np.abs(kp32)).astype(np.float64), 1.1754944e-38)) & (
+                dx < 1.1754944e-38)     # 0 or subnormal (flushed to 0 by TF)
       collapsed = bad & at.any(-1)
       other = bad & ~collapsed
       if np.any(collapsed):
@@ -409,10 +439,13 @@ def _run_pwl(case, out, tf, tfl):
         return
       live = live & ~bad
       miss[name] = m | bad       # not judged further
-    # bounds
-    if np.any(live & ((y < out_min - tol) | (y > out_max + tol))):
-      i = _first(live & ((y < out_min - tol) |
-                                    (y > out_max + tol)))
+    # bounds (plus the float32 conditioning allowance near short segments)
+    cond[name] = _cond_allowance(fn, x, t_kip, t_kop, kw, b, u, k, in_min,
+                                 in_max, xf, tf)
+    btol = tol + cond[name]
+    if np.any(live & ((y < out_min - btol) | (y > out_max + btol))):
+      i = _first(live & ((y < out_min - btol) |
+                                    (y > out_max + btol)))
       out.violate("output %r outside [%r, %r] at input %r" % (
           float(y[i]), out_min, out_max, float(xf[i])), kind="bounds",
                   mono=case["mono"], **sig)
@@ -450,8 +483,9 @@ def _run_pwl(case, out, tf, tfl):
     ok = judged("a", "b")
     out.checks += 1
     d = ys["b"] - ys["a"]
-    if np.any(ok & (d < -TOL_MONO_F * osc)):
-      i = _first(ok & (d < -TOL_MONO_F * osc))
+    mtol = TOL_MONO_F * osc + cond["a"] + cond["b"]
+    if np.any(ok & (d < -mtol)):
+      i = _first(ok & (d < -mtol))
       out.violate("f(%r)=%r > f(%r)=%r with monotonicity='increasing'" % (
           float(xs["a"][i]), float(ys["a"][i]), float(xs["b"][i]),
           float(ys["b"][i])), kind="monotonicity", **sig)
@@ -459,7 +493,8 @@ def _run_pwl(case, out, tf, tfl):
     # the end probes are ordered too
     for lo_n, hi_n in (("lo_out", "lo"), ("lo", "hi"), ("hi", "hi_out")):
       ok = judged(lo_n, hi_n)
-      if np.any(ok & (ys[hi_n] - ys[lo_n] < -TOL_MONO_F * osc)):
+      if np.any(ok & (ys[hi_n] - ys[lo_n] < -(TOL_MONO_F * osc + cond[lo_n] +
+                                              cond[hi_n]))):
         out.violate("f not non-decreasing between probes %s and %s" % (
             lo_n, hi_n), kind="monotonicity", **sig)
         return
